@@ -28,9 +28,13 @@ pub fn challenges_string(ch: &plonky2::plonk::proof::ProofChallenges<F, 2>) -> S
 }
 
 pub fn request(kind: &str, data: &plonky2::plonk::circuit_data::CircuitData<F, C, 2>, proof: &ProofWithPublicInputs<F, C, 2>) -> String {
+    request_parts(kind, &data.common, &data.verifier_only, proof)
+}
+
+pub fn request_parts(kind: &str, common: &plonky2::plonk::circuit_data::CommonCircuitData<F, 2>, vd: &plonky2::plonk::circuit_data::VerifierOnlyCircuitData<C, 2>, proof: &ProofWithPublicInputs<F, C, 2>) -> String {
     let mut t = Toks::default();
-    t.common(&data.common);
-    t.verifier_only(&data.verifier_only);
+    t.common(common);
+    t.verifier_only(vd);
     t.proof_with_pis(proof);
     format!("{kind} {}", t.line())
 }
